@@ -242,7 +242,8 @@ def run_property(pid, tier="quick", seed=0, update=False):
             "discharged": n_dis,
             "checker_cmd": " && ".join(c for c in cmds if c) or "none",
             "trusted_base": registry.TRUSTED_BASE + spec.get("trusted", []),
-            "samples": [{"obligation": o.name, "kind": o.kind, "alarm": o.alarm, "clause": o.text[:300]} for o in obligations[:12]],
+            "samples": [{"obligation": o.name, "kind": o.kind, "alarm": o.alarm, "clause": o.text[:300]}
+                        for o in (sorted(obligations, key=lambda o: (pid not in o.alarm, o.kind not in ("E", "I", "K", "KB", "L")))[:14])],
             "obligation_names": [o.name for o in obligations],
             "functions_under_contract": functions,
             "backends": backends,
